@@ -2093,4 +2093,36 @@ Syntax(Chunk)@0..6
             ParserConfig::with_level(LuaLanguageLevel::LuaJIT)
         );
     }
+
+    #[test]
+    fn test_nesting_limit() {
+        // nesting below the limit of the reference implementation still parses
+        for code in [
+            format!("local x = {}1{}", "(".repeat(150), ")".repeat(150)),
+            format!("local x = {}{}", "{".repeat(150), "}".repeat(150)),
+            format!("{}{}", "do ".repeat(150), "end ".repeat(150)),
+            format!("---@type {}a{}\nlocal x", "A<".repeat(90), ">".repeat(90)),
+        ] {
+            let tree = LuaParser::parse(&code, ParserConfig::default());
+            assert!(tree.get_errors().is_empty(), "{:?}", tree.get_errors());
+        }
+
+        // deeper nesting is a syntax error, not a stack overflow
+        for code in [
+            format!("local x = {}1{}", "(".repeat(20000), ")".repeat(20000)),
+            format!("local x = {}{}", "{".repeat(20000), "}".repeat(20000)),
+            format!("local x = {}1", "- ".repeat(20000)),
+            format!("local x = {}1", "1 .. ".repeat(20000)),
+            format!("local x = {}1{}", "function() return ".repeat(10000), " end".repeat(10000)),
+            format!("{}{}", "if x then ".repeat(20000), "end ".repeat(20000)),
+            format!("---@type {}a{}\nlocal x", "A<".repeat(20000), ">".repeat(20000)),
+            format!("---@type {}a{}\nlocal x", "(".repeat(20000), ")".repeat(20000)),
+            format!("---@type {}a\nlocal x", "keyof ".repeat(20000)),
+            format!("---@type {}a\nlocal x", "a extends b and ".repeat(20000)),
+        ] {
+            let tree = LuaParser::parse(&code, ParserConfig::default());
+            assert!(!tree.get_errors().is_empty());
+            assert_eq!(tree.get_red_root().text(), code.as_str());
+        }
+    }
 }
